@@ -319,3 +319,27 @@ Section HeapProofs.
     apply (heap_ok_root _ H i Hi).
   Qed.
 End HeapProofs.
+
+(* ------------------------------------------------------------------ the two bundles Props.v states *)
+Lemma heap_permutation :
+  forall (item : Type) (lt : item -> item -> bool) (dummy : item) (h : list item),
+  (forall x, Permutation (heappush item lt dummy h x) (x :: h)) /\
+  (forall x h', heappop item lt dummy h = Some (x, h') -> Permutation h (x :: h')) /\
+  (heappop item lt dummy h = None <-> h = []).
+Proof.
+  intros item lt dummy h. split; [apply heappush_perm|].
+  split; [apply heappop_perm|apply heappop_none].
+Qed.
+
+Lemma heap_min :
+  forall (item : Type) (lt : item -> item -> bool) (dummy : item),
+  lt_ok lt ->
+  heap_ok lt dummy [] /\
+  (forall h x, heap_ok lt dummy h -> heap_ok lt dummy (heappush item lt dummy h x)) /\
+  (forall h x h', heap_ok lt dummy h -> heappop item lt dummy h = Some (x, h') ->
+     heap_ok lt dummy h' /\ forall y, In y h -> lt y x = false).
+Proof.
+  intros item lt dummy H. split; [apply heap_ok_nil|].
+  split; [apply heappush_ok; exact H|].
+  intros h x h' Hh E. split; [eapply heappop_ok; eauto|eapply heappop_min; eauto].
+Qed.
